@@ -131,7 +131,7 @@ func (m mspec) simple() bool {
 // a tolerance is negative. sig is non-empty when the only reason for the expectation is a leaf class
 // with its own signature (non-finite floats, wrapped durations).
 func tolExpected(e espec, x, y proto.Message, keepPresence bool) (expected bool, applicable bool, class string) {
-	var fas, tws, dws []atom
+	var fas, tws, dws, dps []atom
 	for _, v := range e.V {
 		a := v.Atoms[0]
 		switch a.Kind {
@@ -142,12 +142,15 @@ func tolExpected(e espec, x, y proto.Message, keepPresence bool) (expected bool,
 		case "dw":
 			dws = append(dws, a)
 		case "dp":
-			return false, false, ""
+			if a.A < 0 {
+				return false, false, ""
+			}
+			dps = append(dps, a)
 		}
 	}
 	sx, sy := stripChangeTime(x, keepPresence), stripChangeTime(y, keepPresence)
-	bx, lx := blank(sx, len(fas) > 0, len(tws) > 0, len(dws) > 0)
-	by, ly := blank(sy, len(fas) > 0, len(tws) > 0, len(dws) > 0)
+	bx, lx := blank(sx, len(fas) > 0, len(tws) > 0, len(dws)+len(dps) > 0)
+	by, ly := blank(sy, len(fas) > 0, len(tws) > 0, len(dws)+len(dps) > 0)
 	if !proto.Equal(bx, by) {
 		return false, true, "structure"
 	}
@@ -199,6 +202,14 @@ func tolExpected(e espec, x, y proto.Message, keepPresence bool) (expected bool,
 		b := ly.durs[k]
 		for _, at := range dws {
 			if !withinOracle(big.NewInt(int64(a.AsDuration())), big.NewInt(int64(b.AsDuration())), at.D) {
+				expected = false
+			}
+		}
+		for _, at := range dps {
+			if !exactDP(float32(at.A), int64(a.AsDuration()), int64(b.AsDuration())) {
+				return false, false, ""
+			}
+			if !dpOracle(float32(at.A), int64(a.AsDuration()), int64(b.AsDuration())) {
 				expected = false
 			}
 		}
@@ -319,7 +330,7 @@ func (c ecase) specClass() string {
 			if kinds != "" {
 				kinds += "+"
 			}
-			kinds += map[string]string{"fa": "FloatValueApprox", "tw": "TimeValueWithin", "dw": "DurationValueWithin"}[k]
+			kinds += atomName(k)
 		}
 	}
 	return kinds
@@ -364,7 +375,8 @@ func (g *gen) atom(kind string) atom {
 	case "dw":
 		return atom{Kind: "dw", D: g.nsTolerance()}
 	default:
-		return atom{Kind: "dp", A: []float64{0.125, 0.5, 1, 1.5, 2}[g.r.Intn(5)]}
+		// percent; the boundaries of the small duration domain (1ns vs 2ns: 100, 4 vs 5: 25, 1000s vs 1001s: 0.1) are in reach
+		return atom{Kind: "dp", A: []float64{0, 0.125, 12.5, 25, 50, 100, 150, 200}[g.r.Intn(8)]}
 	}
 }
 
@@ -499,8 +511,8 @@ func firstLabel(l string) string {
 	return l
 }
 
-// inexactDP: the spec contains DurationValueWithinP and some Duration in x or y makes float32(x)/float32(y)
-// round (the model divides exactly): such cases are not compared.
+// inexactDP: the spec contains DurationValueWithinP and some pair of Durations of x and y makes one of its
+// float64 operations round (the model computes exactly): such cases are not compared in the exact tier.
 func (c ecase) inexactDP() bool {
 	if !c.Spec.hasKind("dp") {
 		return false
@@ -515,12 +527,28 @@ func (c ecase) inexactDP() bool {
 			ds = append(ds, int64(d.AsDuration()))
 		}
 	}
-	for _, a := range ds {
-		for _, b := range ds {
-			if !exactDiv32(a, b) {
-				return true
+	for _, p := range c.Spec.dpValues() {
+		for _, a := range ds {
+			for _, b := range ds {
+				if !exactDP(p, a, b) {
+					return true
+				}
 			}
 		}
 	}
 	return false
+}
+
+func (m mspec) dpValues() []float32 {
+	var ps []float32
+	for _, e := range m.E {
+		for _, v := range e.V {
+			for _, a := range v.Atoms {
+				if a.Kind == "dp" {
+					ps = append(ps, float32(a.A))
+				}
+			}
+		}
+	}
+	return ps
 }
